@@ -389,6 +389,36 @@ def bounded(pr):
             del junk
             if got != ref and len(viol) < 3:
                 viol.append({'what': '%s %s after history %d (%s input): output text differs from a fresh process' % (name, opts, h, kind), 'replay': None})
+    # several structures in ONE invocation (the loop of propka.run.main: one options object and one Parameters object for all files)
+    import propka.lib as plib
+    import propka.input as pinp
+    from propka.parameters import Parameters
+    from propka.molecular_container import MolecularContainer
+    try:
+        order = ['1FTJ-Chain-A', '3SGB-subset', '1HPX']
+        files = [os.path.join(native.PDB_DIR, n + '.pdb') for n in order]
+        options = plib.loadOptions(['-q', '-f', files[0], '-f', files[1], files[2]])
+        parameters = pinp.read_parameter_file(options.parameters, Parameters())
+        for f in options.filenames:
+            ev += 1
+            classes.add('one invocation, several files')
+            m = MolecularContainer(parameters, options)
+            m = pinp.read_molecule_file(f, m)
+            m.calculate_pka()
+            got = hashlib.sha256(bounded_text(m).encode()).hexdigest()
+            want = hashlib.sha256(bounded_text(native.run_text(open(f).read(), [])).encode()).hexdigest()
+            if got != want and len(viol) < 3:
+                viol.append({'what': '%s processed as one of several files of one invocation (shared options and parameters): results '
+                                     'differ from processing it alone' % os.path.basename(f), 'replay': None})
+    except (Exception, SystemExit) as e:    # noqa
+        viol.append({'what': 'several files in one invocation: %s: %s' % (type(e).__name__, e), 'replay': None})
+    # the coupled-residue display on a system of three coupled groups (1FTJ-Chain-A) under different hash seeds
+    refd = fresh('1FTJ-Chain-A', ['-d'], seed=0)
+    for sd in (2, 3) if pr.tier == 'quick' else (1, 2, 3, 4, 5, 6, 7):
+        ev += 1
+        classes.add(('hashseed -d', sd))
+        if fresh('1FTJ-Chain-A', ['-d'], seed=sd) != refd and len(viol) < 3:
+            viol.append({'what': "1FTJ-Chain-A -d: output text under PYTHONHASHSEED=%d differs from PYTHONHASHSEED=0" % sd, 'replay': None})
     # path vs text stream for content with Windows line ends, bare TER records and no terminal oxygens (the path is opened with
     # newline translation, a StringIO is not)
     d4 = tempfile.mkdtemp()
